@@ -115,6 +115,7 @@ def applyEv (M : Nat) (v : List Nat) : Ev → List Nat × Option Err
   incr := fun c es => es = c.map Ev.pushBack
   inheritDone := true
   good := fun _ => True
+  idle := fun | .extend [] => true | _ => false
 
 /-! ### laws -/
 
